@@ -56,7 +56,12 @@ func writeReplay(g *Gen, dir, prop string, o *Obligation, timeout int) string {
 		rf.Note = "vacuity cover: this query must be satisfiable; it is not, so some precondition/assumption is contradictory"
 	}
 	if o.Result == "sat" && o.fv != nil {
-		tryReplay(g, o, rf)
+		if replayBudget > 0 {
+			replayBudget--
+			tryReplay(g, o, rf)
+		} else {
+			rf.Note = "not replayed: the first failing obligations of this run were replayed, the replay budget (4 per run) is used up; rerun with -replay-budget N to replay more"
+		}
 	}
 	if !rf.Confirmed && rf.Note == "" {
 		switch {
@@ -166,3 +171,4 @@ func writeEvidence(g *Gen, path, prop, tier string, seed int, obs, failed, known
 func round2(f float64) float64 { return float64(int(f*100+0.5)) / 100 }
 
 var boundedResults = map[string]any{}
+var replayBudget = 4
